@@ -73,6 +73,12 @@ const Matrix<double>& FullHmmTransitionMatrix::getPij() const
         pij_(i, j) = vSimplex_[i].prob(j);
       }
     }
+    // upToDate_ also guards eqFreq_: compute it together with pij_
+    MatrixTools::pow(pij_, 256, tmpmat_);
+    for (size_t i = 0; i < eqFreq_.size(); ++i)
+    {
+      eqFreq_[i] = tmpmat_(0, i);
+    }
     upToDate_ = true;
   }
 
@@ -81,21 +87,8 @@ const Matrix<double>& FullHmmTransitionMatrix::getPij() const
 
 const std::vector<double>& FullHmmTransitionMatrix::getEquilibriumFrequencies() const
 {
-  size_t salph = getNumberOfStates();
-
   if (!upToDate_)
-  {
-    pij_ = getPij();
-
-    MatrixTools::pow(pij_, 256, tmpmat_);
-
-    for (size_t i = 0; i < salph; ++i)
-    {
-      eqFreq_[i] = tmpmat_(0, i);
-    }
-
-    upToDate_ = true;
-  }
+    getPij();
 
   return eqFreq_;
 }
